@@ -1,6 +1,5 @@
--- imports RouterBuildNoJunk_proof.lean (rebased on RouterLookupLib.lean) and RouterLookupComplete_proof.lean
-import Probe.NoJunk2
-import Probe.Complete
+import RouterBuildNoJunk_proof
+import RouterLookupComplete_proof
 /-! Proof probe for C05, construction half of completeness: `insert` keeps heads distinct and keeps every
     route present; the new route is present afterwards. -/
 namespace Tree
